@@ -190,6 +190,12 @@ static std::string ndsz(const nix::NDSize &v) {
     return o + "]";
 }
 
+// a name that is the id of a known entity is printed as i:<ordinal> (real ids never leave the driver)
+static std::string enc_name(const std::string &n) {
+    auto it = ord_of_id.find(n);
+    return it == ord_of_id.end() ? enc_str(n) : "i:" + std::to_string(it->second);
+}
+
 struct Walk {
     std::vector<std::pair<long, std::string>> lines;   // (ordinal or 1e9+serial, text)
     std::set<std::string> ids;
@@ -207,7 +213,7 @@ struct Walk {
         return std::string(1, K) + (k >= 1000000000L ? std::string("?") : std::to_string(k)) + " p=" + parent;
     }
     template<typename E> std::string named(const E &e) {
-        return " n=" + SAFE(enc_str(e.name())) + " t=" + SAFE(enc_str(e.type())) + " d=" + SAFE(ostr(e.definition()));
+        return " n=" + SAFE(enc_name(e.name())) + " t=" + SAFE(enc_str(e.type())) + " d=" + SAFE(ostr(e.definition()));
     }
     template<typename E> std::string meta_src(const E &e) {
         return " meta=" + SAFE(ordof(e.metadata())) + " src=" + SAFE(ords(e.sources()));
@@ -256,7 +262,7 @@ struct Walk {
             std::string pid; long pk;
             std::string pl = head('P', p, me, pid, pk);
             if (rebind && pk < 1000000000L) { hs[pk].p = p; }
-            pl += " n=" + SAFE(enc_str(p.name())) + " d=" + SAFE(ostr(p.definition())) + " dt=" + SAFE(enc_dtype(p.dataType()));
+            pl += " n=" + SAFE(enc_name(p.name())) + " d=" + SAFE(ostr(p.definition())) + " dt=" + SAFE(enc_dtype(p.dataType()));
             pl += " cnt=[" + SAFE(enc_u64(p.valueCount())) + "]";
             lines.push_back({pk, pl});
         }
@@ -521,11 +527,11 @@ static LCont lcontainer(int hk, const std::string &sl) {
         if (h.kind == 'T') { nix::Tag t = h.t; LREFS(t) return c; }
         if (h.kind == 'M') { nix::MultiTag m = h.m; LREFS(m) return c; }
     } else if (sl == "src") {
-        if (h.kind == 'A') { nix::DataArray e = h.a; LSRCS(e) return c; }
-        if (h.kind == 'D') { nix::DataFrame e = h.d; LSRCS(e) return c; }
-        if (h.kind == 'T') { nix::Tag e = h.t; LSRCS(e) return c; }
-        if (h.kind == 'M') { nix::MultiTag e = h.m; LSRCS(e) return c; }
-        if (h.kind == 'G') { nix::Group e = h.g; LSRCS(e) return c; }
+        if (h.kind == 'A') { nix::DataArray holder_ = h.a; LSRCS(holder_) return c; }
+        if (h.kind == 'D') { nix::DataFrame holder_ = h.d; LSRCS(holder_) return c; }
+        if (h.kind == 'T') { nix::Tag holder_ = h.t; LSRCS(holder_) return c; }
+        if (h.kind == 'M') { nix::MultiTag holder_ = h.m; LSRCS(holder_) return c; }
+        if (h.kind == 'G') { nix::Group holder_ = h.g; LSRCS(holder_) return c; }
     } else if (h.kind == 'G') {
         nix::Group g = h.g;
         if (sl == "ga") { LGRP(DataArray, dataArrayCount, dataArrays, argA, nix::DataArray) return c; }
